@@ -49,13 +49,15 @@ func (v *Value) CompareAndSwap(old, new any) bool {
 	return true
 }
 
-// Plain-address atomics: the address only keys the per-execution object table,
-// it never enters a fingerprint.
-func addr(p unsafe.Pointer) uint64 { return uint64(uintptr(p)) ^ 0xa70a70a70 }
+// Plain-address atomics have no schedule-independent identity (addresses differ between runs
+// and are re-used after garbage collection), so for the happens-before fingerprint they all
+// count as operations on one shared pseudo-object: coarser than necessary (fewer equivalent
+// interleavings are merged) but deterministic and sound. The race detector is fed per address.
+const atomicsObj = 0xa70a70a70
 
 func rmw(p unsafe.Pointer, kind string) uint64 {
-	o := addr(p)
-	vrt.Yield(vrt.Op{Kind: kind, Obj: o, AddrKeyed: true})
+	vrt.Yield(vrt.Op{Kind: kind, Obj: atomicsObj})
+	o := uint64(uintptr(p)) ^ 0x5ca1ab1e00000000
 	vrt.RaceAcquire(o)
 	vrt.RaceReleaseMerge(o)
 	return o
